@@ -267,6 +267,10 @@ where
             // Stop the write
             self.wait_not_busy(Delay::new_write())?;
             self.write_byte(STOP_TRAN_TOKEN)?;
+            // The card may take one byte before it starts to signal busy, so
+            // skip that, and then wait for it to finish programming.
+            let _ = self.read_byte()?;
+            self.wait_not_busy(Delay::new_write())?;
         }
         Ok(())
     }
